@@ -9,6 +9,8 @@
    line: xtext TAB world TAB env TAB top TAB plist TAB force TAB text TAB rawdeps [TAB tfix,jfix,sfix,cfix]
      text    = the text of the table file (level A is done by the model: Model/ExpandText.v)
    answer: ok TAB text (the text written, white space included) | outside TAB reason | err TAB kind
+   line: unexpand TAB text
+   answer: ok TAB text (the text without the lines an earlier expansion added: Model/ExpandRe.v)
    line: classify TAB text [TAB tfix]
    answer: ok TAB line|line... (as above) | outside TAB reason | err TAB kind
    line: req ...  exactly as in drv_c01.ml (the exact-mode replay through Model/Setup.v) *)
@@ -108,10 +110,13 @@ let handle (f : Stdlib.String.t array) : Stdlib.String.t =
          | [t; a; b; c] -> (bool_of_field t, bool_of_field a, bool_of_field b, bool_of_field c)
          | _ -> failwith "bad variant")
       else (true, true, true, true) in
-    (match expand_text_gen tfix jfix sfix cfix w e top plist force rd text with
+    (* the repaired code drops the lines of an earlier expansion while it reads the table (Model/ExpandRe.v);
+       the text model of the pinned tree (tfix = false) does not *)
+    (match (if tfix then reexpand_text_gen else expand_text_gen) tfix jfix sfix cfix w e top plist force rd text with
      | Inside out -> "ok\t" ^ enc_str out
      | Outside x -> "outside\t" ^ outside_name x
      | Raises k -> "err\t" ^ err_name k)
+  | "unexpand" -> "ok\t" ^ enc_str (unexpand_text (dec_str f.(1)))
   | "classify" ->
     (match classify_text (if Array.length f > 2 then bool_of_field f.(2) else true) (dec_str f.(1)) with
      | Inside ls -> "ok\t" ^ Stdlib.String.concat "|" (Stdlib.List.map enc_tline ls)
